@@ -108,25 +108,7 @@ Proof.
   - unfold do_map. destruct (negb (pstate (with_sigs s []) =? 0)); exact H.
   - unfold do_imap. destruct (negb (pstate (with_sigs s []) =? 0)); exact H.
   - unfold do_imap. destruct (negb (pstate (with_sigs s []) =? 0)); exact H.
-  - apply (SemB_sn s); [|exact H].
-    change (sn (fst (do_feed (with_sigs s []) fail_at io)) = sn (with_sigs s [])).
-    generalize (with_sigs s []). intros s0. unfold do_feed.
-    assert (Hft : forall fuel i j k fa io0 s1, sn (fst (fst (feed_tasks fuel i j k fa io0 s1))) = sn s1).
-    { induction fuel as [|f IH]; intros; cbn [feed_tasks]; [reflexivity|].
-      destruct (okey_eqb (Some k) fa); [|apply IH]. destruct io0; [reflexivity|].
-      rewrite IH. destruct (cached s1 j); reflexivity. }
-    assert (Hfs : forall fs k fa io0 s1, sn (fst (fst (do_feeds fs k fa io0 s1))) = sn s1).
-    { induction fs as [|[[j n] sl] r IH]; intros; cbn [do_feeds]; [reflexivity|].
-      pose proof (Hft (Z.to_nat n) 0 j k fa io0 s1) as H0.
-      destruct (feed_tasks (Z.to_nat n) 0 j k fa io0 s1) as [[s2 k2] st]. cbn [fst] in H0.
-      destruct st; [exact H0|].
-      destruct sl.
-      - destruct (get_job s2 j) as [x|].
-        + destruct (snd (set_length x n)); cbn [fst]; [exact H0|]. rewrite IH. exact H0.
-        + rewrite IH. exact H0.
-      - rewrite IH. exact H0. }
-    pose proof (Hfs (feeds s0) 0 fail_at io s0) as H0.
-    destruct (do_feeds (feeds s0) 0 fail_at io s0) as [[s1 rest] r]. cbn [fst] in *. rewrite <- H0. reflexivity.
+  - apply (feed_preserves (fun x n => LaxSem.bound x = n) (fun x n Hx => eq_trans (bp_release x) Hx) (with_sigs s []) fail_at io). exact H.
   - unfold do_ack. destruct (cached _ j) as [x|]; [|exact H].
     destruct (kind x); try exact H. destruct i; exact H.
   - unfold do_ready. destruct (cached _ j) as [x|]; [|exact H]. cbn [fst].
@@ -162,6 +144,13 @@ Proof.
   - apply (SemB_do_tick_close (with_sigs s [])). exact H.
   - unfold do_join_shutdown. destruct (wlist _); cbn [fst]; [exact H|].
     apply (SemB_sn (with_sigs s [])); [apply sn_join_exited|exact H].
+  - unfold do_apply_q, do_apply.
+    destruct (negb (pstate (with_sigs s []) =? 0)); [exact H|].
+    destruct ((match slot with Some b => b | None => putlocks (with_sigs s []) end) && (LaxSem.value (sem (with_sigs s [])) =? 0)); [exact H|]. cbn [fst].
+    destruct (match slot with Some b => b | None => putlocks (with_sigs s []) end); [|exact H].
+    unfold SemB in *. cbn [sem nprocs add_job with_sem with_sigs with_feeds]. unfold sstep', sstep.
+    destruct (0 <? LaxSem.value (sem s)); cbn [LaxSem.bound]; exact H.
+  - unfold do_apply_unsendable. destruct (negb (pstate _ =? 0)); [exact H|]. destruct (_ && _); exact H.
 Qed.
 
 Lemma SemB_init c : SemB (init c).
